@@ -8,6 +8,7 @@ import (
 	"math/rand"
 	"reflect"
 	"strings"
+	"time"
 
 	kmip "github.com/smira/go-kmip"
 
@@ -67,7 +68,7 @@ func buildDecInputs(g *gen.G, nValid, mutPer int, kinds []string) []decInput {
 		}
 		_ = i
 	}
-	return append(inputs, skipFamily()...)
+	return append(append(inputs, skipFamily()...), tailFamily()...)
 }
 
 // skipFamily: items that only a field annotated `skip` can claim never come out of Encode, so they are built by hand: a third
@@ -119,6 +120,43 @@ func skipFamily() []decInput {
 					}
 				}
 			}
+		}
+	}
+	return out
+}
+
+// tailFamily: messages whose LAST item is a text / byte string that needs no padding (8..64 bytes), cut at every offset from the
+// start of that item to one byte before the end: nothing follows the value, so only the reader of the value itself can notice
+func tailFamily() []decInput {
+	var out []decInput
+	uid := strings.Repeat("0123456789abcdef", 4)
+	var bases []struct {
+		typ string
+		val interface{}
+	}
+	for _, l := range []int{8, 16, 24, 32, 40, 64} {
+		bases = append(bases, struct {
+			typ string
+			val interface{}
+		}{"Request", &kmip.Request{Header: kmip.RequestHeader{Version: kmip.ProtocolVersion{Major: 1, Minor: 4}, BatchCount: 1},
+			BatchItems: []kmip.RequestBatchItem{{Operation: kmip.OPERATION_DESTROY, RequestPayload: kmip.DestroyRequest{UniqueIdentifier: uid[:l]}}}}})
+		bases = append(bases, struct {
+			typ string
+			val interface{}
+		}{"Response", &kmip.Response{Header: kmip.ResponseHeader{Version: kmip.ProtocolVersion{Major: 1, Minor: 4}, TimeStamp: time.Unix(1000000000, 0), BatchCount: 1},
+			BatchItems: []kmip.ResponseBatchItem{{Operation: kmip.OPERATION_DECRYPT, ResponsePayload: kmip.DecryptResponse{UniqueIdentifier: "k", Data: []byte(uid[:l])}}}}})
+	}
+	for _, b := range bases {
+		var eb bytes.Buffer
+		if err := kmip.NewEncoder(&eb).Encode(b.val); err != nil {
+			continue
+		}
+		data := eb.Bytes()
+		nodes := mut.All(mut.Parse(data))
+		last := nodes[len(nodes)-1]
+		out = append(out, decInput{typ: b.typ, data: data, origin: "tail-valid"})
+		for cut := last.Off; cut < len(data); cut++ {
+			out = append(out, decInput{typ: b.typ, data: data[:cut], origin: "tail-cut"})
 		}
 	}
 	return out
